@@ -637,7 +637,7 @@ def leakfile(genname):
     return 'Leak' + genname[3:]
 
 # the groups of tools/rs2v_targets.json whose kernels have hand-written noninterference proofs (coq/Src/Leak<G>P.v)
-LEAK_FILES = ['Gen%s.v' % g for g in ('Prim', 'Div', 'Uint', 'Mod', 'Shift', 'Mul', 'Int', 'DivLimb', 'Monty', 'Hex', 'Bits', 'DivCt', 'Sqrt', 'Amm', 'MulMod', 'IntDiv', 'Cmp', 'IntCmp', 'Conv', 'Wrap', 'SafeGcd')]
+LEAK_FILES = ['Gen%s.v' % g for g in ('Prim', 'Div', 'Uint', 'Mod', 'Shift', 'Mul', 'Int', 'DivLimb', 'Monty', 'Hex', 'Bits', 'DivCt', 'Sqrt', 'Amm', 'MulMod', 'IntDiv', 'Cmp', 'IntCmp', 'Conv', 'Wrap', 'SafeGcd', 'Logic')]
 
 def main():
     repo = sys.argv[1] if len(sys.argv) > 1 else '/repo'
